@@ -123,9 +123,10 @@ func lockDiscipline(repo, root, outDir string) map[string]interface{} {
 		var cs []string
 		for _, c := range f.Calls {
 			id, ok := funcID[c.Callee]
-			if !ok || len(c.Held) == 0 {
+			if !ok {
 				continue
 			}
+			// calls made without a lock held are kept: what the callee acquires is acquired by every caller up the chain
 			var hs []string
 			for _, h := range c.Held {
 				hs = append(hs, fmt.Sprintf("%d%%N", lid(h)))
@@ -161,6 +162,47 @@ func lockDiscipline(repo, root, outDir string) map[string]interface{} {
 	if len(leaks) > 0 {
 		sort.Strings(leaks)
 		detail += "locks held at a return: " + strings.Join(leaks, "; ") + ". "
+	}
+	// edges through calls: what a callee acquires (transitively) is acquired under the caller's locks
+	byName := map[string]*funcFacts{}
+	for i := range all {
+		byName[all[i].Name] = &all[i]
+	}
+	var acquires func(fn string, depth int, seen map[string]bool) map[string]string
+	acquires = func(fn string, depth int, seen map[string]bool) map[string]string {
+		out := map[string]string{}
+		f := byName[fn]
+		if f == nil || seen[fn] || depth > len(all) {
+			return out
+		}
+		seen[fn] = true
+		for _, e := range f.Edges {
+			out[e[1]] = fn
+		}
+		for _, c := range f.Calls {
+			for l, via := range acquires(c.Callee, depth+1, seen) {
+				if _, ok := out[l]; !ok {
+					out[l] = c.Callee + " <- " + via
+				}
+			}
+		}
+		delete(seen, fn)
+		return out
+	}
+	for _, f := range all {
+		for _, c := range f.Calls {
+			if len(c.Held) == 0 {
+				continue
+			}
+			for l, via := range acquires(c.Callee, 0, map[string]bool{}) {
+				for _, h := range c.Held {
+					e := [2]string{h, l}
+					if _, ok := edgeSet[e]; !ok {
+						edgeSet[e] = f.Name + " calling " + via
+					}
+				}
+			}
+		}
 	}
 	adj := map[string][]string{}
 	for e := range edgeSet {
